@@ -254,7 +254,7 @@ def replay_event(prop, path, fam, key_of):
     d = json.load(open(path))
     ev = d["event"]
     run = Run(prop, "quick")
-    res = rerun(run, fam, ev)
+    res = [x for x in rerun(run, fam, ev) if not x.startswith("diag.")]      # diag.* labels name routes, they are never violations
     if res:
         print("VIOLATION property=%s replay=%s" % (prop, path))
         print("  labels=%s" % res)
